@@ -6,7 +6,9 @@
 //     bufferevent, it will be assumed that this connection is already open"); a reconnect is impossible (no address) and
 //     fails synchronously, which the harness treats as "connection refused";
 //   * AF_UNIX path listener owned by the harness: evhttp_connection_base_bufferevent_unix_new(); every connect() of the
-//     client lands in the harness' listen queue and is accepted / refused / reset by the harness.
+//     client lands in the harness' listen queue and is accepted / refused / reset by the harness;
+//   * TCP loopback listener owned by the harness (127.0.0.1, explicit port): evhttp_connection_base_new(base, NULL, "127.0.0.1", port),
+//     i.e. the hostname-connect path without a dns_base (lookup + socket() + connect() run synchronously inside the connect call).
 // The harness reads request bytes, writes generated response bytes in generated segments and runs
 // event_base_loop(EVLOOP_NONBLOCK) to quiescence in between.  Time only moves when the harness says so.
 //
@@ -26,6 +28,9 @@
 #include <event2/keyvalq_struct.h>
 #include <sys/socket.h>
 #include <sys/un.h>
+#include <netinet/in.h>
+#include <netinet/tcp.h>
+#include <arpa/inet.h>
 #include <unistd.h>
 #include <errno.h>
 #include <fcntl.h>
@@ -141,6 +146,28 @@ struct World {
     CHECK(evcon != nullptr, "harness/evcon", "evhttp_connection_base_bufferevent_unix_new failed");
     return true;
   }
+  // transport 3: TCP listener on 127.0.0.1.  The port is chosen by the harness below the ephemeral range, one per process (derived from the
+  // pid; SO_REUSEADDR so that TIME_WAIT leftovers of earlier runs do not block it) and bound explicitly, so tcp_unlisten()
+  // (shutdown(SHUT_RD): the socket stops listening, connects get RST = ECONNREFUSED) keeps the port and tcp_relisten() listens on it again.
+  int lport = 0;
+  bool open_tcp_listener() {
+    struct sockaddr_in a; memset(&a, 0, sizeof a); a.sin_family = AF_INET; a.sin_addr.s_addr = htonl(INADDR_LOOPBACK);
+    bool ok = false;
+    for (unsigned i = 0; i < 50 && !ok; i++) {
+      lfd = socket(AF_INET, SOCK_STREAM | SOCK_NONBLOCK | SOCK_CLOEXEC, 0);
+      CHECK(lfd >= 0, "harness/socket", "socket: %s", strerror(errno));
+      int one = 1; setsockopt(lfd, SOL_SOCKET, SO_REUSEADDR, &one, sizeof one);
+      lport = 10000 + (int)(((unsigned)getpid() + i * 7919u) % 22000u); a.sin_port = htons((uint16_t)lport);
+      if (bind(lfd, (struct sockaddr *)&a, sizeof a) == 0 && listen(lfd, 16) == 0) { ok = true; break; }
+      close(lfd); lfd = -1;
+    }
+    CHECK(ok, "harness/bind", "no free loopback port found: %s", strerror(errno));
+    evcon = evhttp_connection_base_new(base, NULL, "127.0.0.1", (ev_uint16_t)lport);
+    CHECK(evcon != nullptr, "harness/evcon", "evhttp_connection_base_new failed");
+    return true;
+  }
+  void tcp_unlisten() { if (lfd >= 0) shutdown(lfd, SHUT_RD); }
+  void tcp_relisten() { CHECK(lfd >= 0 && listen(lfd, 16) == 0, "harness/listen", "re-listen on 127.0.0.1:%d: %s", lport, strerror(errno)); }
   void stop_listening() { if (lfd >= 0) { close(lfd); lfd = -1; } if (!lpath.empty()) unlink(lpath.c_str()); }   // later connects are refused (ENOENT/ECONNREFUSED)
   bool accept_one() {
     if (lfd < 0) return false;
